@@ -365,13 +365,13 @@ def c02(res):
 
 @check("C03")
 def c03(res):
-    return generic(res, "C03", "Properties/C03.v", [("corr-url", ["url"]), ATTRS("general"), ("corr-dump", ["dump", "-n", "40"])], "C03",
+    return generic(res, "C03", "Properties/C03.v", [("corr-url", ["url"]), ATTRS("url"), ATTRS("general"), ("corr-dump", ["dump", "-n", "40"])], "C03",
                    "validURL, the URL switch of sanitizeAttrs, linkable() and the builder options that imply URL checking",
                    "theorems over the model of validURL / the URL pass with net/url as an oracle; generated position tables re-checked; tie: VerifValidURL vs the "
                    "extracted model on a URL corpus (obfuscated schemes, leading C0/space, embedded TAB/LF, backslashes, opaque, scheme-relative, percent escapes, userinfo, IPv6) "
-                   "x 8 scheme/relative/custom-policy configurations, sanitizeAttrs on random policies, builder dumps; oracle: WHATWG scheme extraction on the real output at the 15 positions; "
+                   "x 9 scheme/relative/custom-policy configurations, sanitizeAttrs on every URL fragment at every URL position under 6 rewriter / scheme / relative configurations (exhaustive grid) and on random policies, builder dumps; oracle: WHATWG scheme extraction on the real output at the 15 positions; "
                    "the net/url hypotheses are monitored on every parse. non-trivial = accepted URLs / changed attribute lists",
-                   thorough_runs=[("corr-url", ["url", "-n", "5000"]), ATTRS_T("general"), ("corr-dump", ["dump", "-n", "300"])])
+                   thorough_runs=[("corr-url", ["url", "-n", "5000"]), ATTRS("url"), ATTRS_T("general"), ("corr-dump", ["dump", "-n", "300"])])
 
 
 @check("C10")
